@@ -54,4 +54,56 @@ theorem attemptReopen_sleeps (m : Base) (outs : List Bool) (w : Int) (prev : Nat
           exact ih _ _ (onReopenFailed_wait_le m _ _ hc) x hx
         · simp [sleeps] at hx
     · simp [attemptReopen, sleeps]; exact hw
+
+/-- an outage in which the first `k` reopen attempts fail and the next one succeeds -/
+def outageOuts (k : Nat) (rest : List Bool) : List Bool := List.replicate k false ++ true :: rest
+
+theorem attemptReopen_until_success (m : Base) (k : Nat) (rest : List Bool) (w : Int) (prev : Nat)
+    (h : prev + k < m.maxReopenAttempts) :
+    let t := attemptReopen m.policy (outageOuts k rest) w prev
+    t.count .reopenSucceeded = 1 ∧ .terminated ∉ t ∧ .pending ∉ t ∧ attempts t = k + 1 := by
+  induction k generalizing w prev with
+  | zero => simp [outageOuts, attemptReopen, attempts]
+  | succ k ih =>
+    have hc : ¬ (prev + 1 ≥ m.maxReopenAttempts) := by omega
+    have h1 : (m.policy.onReopenFailed (prev + 1) w).1 = true := by
+      simp [Base.policy, Base.onReopenFailed, hc]
+    have e : outageOuts (k + 1) rest = false :: outageOuts k rest := by
+      simp [outageOuts, List.replicate_succ]
+    simp only [e, attemptReopen, h1, if_true]
+    obtain ⟨a, b, c, d⟩ := ih (m.policy.onReopenFailed (prev + 1) w).2 (prev + 1) (by omega)
+    refine ⟨?_, ?_, ?_, ?_⟩
+    · rw [List.count_append]; simp [a]
+    · simp [b]
+    · simp [c]
+    · rw [attempts_append, d]; simp [attempts]; omega
+
+theorem handleClose_reopens (m : Base) (k : Nat) (rest : List Bool) (h : k < m.maxReopenAttempts) :
+    let t := handleClose m.policy false (outageOuts k rest)
+    t.count .reopenSucceeded = 1 ∧ endsRunner t = false ∧ attempts t = k + 1 := by
+  have hp : m.policy.onClosedUncleanly = (decide (m.maxReopenAttempts > 0), m.initialWait) := rfl
+  have hpos : m.maxReopenAttempts > 0 := by omega
+  obtain ⟨a, b, c, d⟩ := attemptReopen_until_success m k rest m.initialWait 0 (by omega)
+  simp only [handleClose, Bool.false_eq_true, if_false, hp, hpos, decide_true, if_true]
+  refine ⟨?_, ?_, ?_⟩
+  · simp [List.count_cons, a]
+  · simp [endsRunner, b, c]
+  · simp only [attempts, List.filter_cons] at d ⊢; simpa using d
+
+/-- the budget is per outage: any sequence of outages, each with fewer failing attempts than
+MaxReopenAttempts, ends reopened every time and the runner never returns -/
+theorem runner_budget_per_outage (m : Base) (ks : List Nat) (h : ∀ k ∈ ks, k < m.maxReopenAttempts) :
+    let t := runner m.policy (ks.map fun k => (false, outageOuts k []))
+    t.count .reopenSucceeded = ks.length ∧ .terminated ∉ t := by
+  induction ks with
+  | nil => simp [runner]
+  | cons k ks ih =>
+    obtain ⟨a, b, _⟩ := handleClose_reopens m k [] (h k (by simp))
+    obtain ⟨c, d⟩ := ih (fun x hx => h x (by simp [hx]))
+    simp only [List.map_cons, runner, b]
+    refine ⟨?_, ?_⟩
+    · rw [List.count_append, a]; simp at c ⊢; omega
+    · have : MEv.terminated ∉ handleClose m.policy false (outageOuts k []) := by
+        intro hm; simp [endsRunner, hm] at b
+      simp at d ⊢; exact ⟨this, d⟩
 end FV.Monitor
